@@ -726,3 +726,72 @@ def typed_source(rng, typ, n, ifexp=True, boolop=True, chain=True):
             continue
         return src, tree
     return 'a', ast.parse('a', mode='eval').body
+
+
+# --------------------------------------------------------------------------
+# large expressions (code objects that need EXTENDED_ARG) and `is None` families
+# --------------------------------------------------------------------------
+def large_expr(rng, n, style, names=NAMES):
+    """Source of an expression with n comparison operands joined by and/or in the given style.  Operands use
+    many different attribute names and constants, so with n >= ~20 the code object has jumps over more than 255
+    code units and with n >= ~130 more than 255 names/constants (EXTENDED_ARG on jumps, LOAD_ATTR, LOAD_CONST).
+    style: 'or' | 'and' | 'and_of_or' | 'or_of_and' | 'mixed' | 'not_groups' | 'arith'."""
+    cmps = ('==', '!=', '<', '<=', '>', '>=')
+
+    def operand(i):
+        x = rng.random()
+        v = rng.choice(names)
+        if x < 0.6: return '%s.p%d %s %d' % (v, i, rng.choice(cmps), 1000 + i)
+        if x < 0.75: return '%s.q%d %s %s.r%d' % (v, i, rng.choice(cmps), rng.choice(names), i)
+        if x < 0.85: return '%s.n%d is %sNone' % (v, i, rng.choice(('', 'not ')))
+        if x < 0.93: return 'not %s.f%d' % (v, i)
+        return '%s.s%d in (%d, %d)' % (v, i, i, i + 500)
+    ops = [operand(i) for i in range(n)]
+    if style in ('or', 'and'):
+        return (' %s ' % style).join(ops)
+    if style in ('and_of_or', 'or_of_and', 'not_groups'):
+        inner, outer = ('or', 'and') if style != 'or_of_and' else ('and', 'or')
+        groups, i = [], 0
+        while i < n:
+            k = rng.randint(2, 7)
+            grp = '(' + (' %s ' % inner).join(ops[i:i + k]) + ')'
+            if style == 'not_groups' and rng.random() < 0.4: grp = 'not ' + grp
+            groups.append(grp); i += k
+        return (' %s ' % outer).join(groups)
+    if style == 'mixed':
+        # random binary and/or tree over the operands, written with explicit parentheses
+        items = list(ops)
+        while len(items) > 1:
+            i = rng.randrange(len(items) - 1)
+            op = rng.choice(('and', 'or'))
+            l, r = items[i], items[i + 1]
+            items[i:i + 2] = ['(%s %s %s)' % (l, op, r)]
+        return items[0]
+    if style == 'arith':
+        v = rng.choice(names)
+        terms = ['%s.p%d * %d' % (rng.choice(names), i, 1000 + i) for i in range(n)]
+        return '%s > %s.limit and %s.p0 < %d' % (' + '.join(terms), v, v, 5000 + n)
+    raise ValueError(style)
+
+
+NONE_ATOMS = ('a.p is None', 'b is not None', 'c == d', 'a.q < c')
+
+
+def none_conditions(max_nodes, natoms):
+    """Every and/or/not tree with at most max_nodes nodes (leaves included) whose leaves are drawn from the first
+    `natoms` NONE_ATOMS and that contains at least one `is None` / `is not None` test.  Yields source texts."""
+    atoms = NONE_ATOMS[:natoms]
+    seen = set()
+    for n in range(1, max_nodes + 1):
+        for sh in enum_shapes(n, ('and', 'or', 'not')):
+            k = _count_leaves(sh)
+            for pick in itertools.product(range(len(atoms)), repeat=k):
+                if not any(i < 2 for i in pick): continue
+                it = iter(ast.parse(atoms[i], mode='eval').body for i in pick)
+                src = ast.unparse(shape_to_ast(sh, it))
+                if src not in seen:
+                    seen.add(src); yield src
+
+
+def _count_leaves(shape):
+    return 1 if shape == 'x' else sum(_count_leaves(k) for k in shape[1:])
